@@ -190,3 +190,43 @@ func HarnessC19Free() {
 	checkTokenGeometry(src, toks)
 	vCover("checked")
 }
+
+// HarnessC19Cursor: for an arbitrary cursor (line, column) - two unconstrained unsigned integers - at most one token's
+// range contains it, and if the cursor is the position of a byte covered by a token, that token contains it.
+func HarnessC19Cursor() {
+	prefix := []string{"", "{{1}}", "@if(x)"}[vChoice("prefix", 3)]
+	src := prefix + symSource(vParam("N"))
+	toks := lexAll(src)
+	vCover("lexed")
+	tab := refLineTable(src)
+	line := uint(vUint64("line"))
+	col := uint(vUint64("col"))
+	hits := 0
+	inside := make([]bool, len(toks))
+	for i, t := range toks {
+		if t.Type == token.EOF || t.Type == token.ILLEGAL {
+			continue
+		}
+		if t.Pos.Contains(line, col) {
+			inside[i] = true
+			hits++
+		}
+	}
+	vAssert(hits <= 1, "a-cursor-lies-inside-at-most-one-token")
+	// which byte, if any, sits at the cursor
+	for j := 0; j < len(src); j++ {
+		if tab[j].line == line && tab[j].col == col {
+			for i, t := range toks {
+				if t.Type == token.EOF || t.Type == token.ILLEGAL {
+					continue
+				}
+				s := refOffset(tab, t.Pos.StartLine, t.Pos.StartCol)
+				e := refOffset(tab, t.Pos.EndLine, t.Pos.EndCol)
+				if s >= 0 && e >= 0 && s <= j && j <= e {
+					vAssert(inside[i], "the-token-covering-the-byte-under-the-cursor-contains-it")
+				}
+			}
+		}
+	}
+	vCover("checked")
+}
